@@ -185,6 +185,112 @@ pub fn corpus_projects(quick: bool, rng: &mut Rng) -> Vec<Project> {
     v
 }
 
+/// ill-typed programs whose diagnostics are produced while some collection is walked — one family per
+/// place in name resolution / the typer / the match compiler where the text or the order of diagnostics could
+/// follow a map or set: closure capture lists, struct patterns and literals with several unknown / missing /
+/// duplicate fields, impls with several missing / extra / wrongly typed methods, several unresolved names,
+/// types, traits, variants in one item, duplicate definitions, non-exhaustive matches, candidates lists.
+/// `k` = how many entities take part (2..=6); names are chosen so that they do not sort like they are written.
+pub fn collection_diag_projects() -> Vec<Project> {
+    let names = ["zeta", "alpha", "mid", "beta", "omega", "gamma"];
+    let mut v = Vec::new();
+    for k in 2..=6usize {
+        let ns: Vec<&str> = names.iter().take(k).cloned().collect();
+        let mut fam: Vec<(&str, String)> = Vec::new();
+        // closure capturing k locals whose element type is never fixed
+        let lets: String = ns.iter().map(|n| format!("    let {n} = vec_new();\n")).collect();
+        let sum = ns.iter().map(|n| format!("vec_len({n})")).collect::<Vec<_>>().join(" + ");
+        fam.push(("closure-captures-unresolved", format!("package Main\n\nfn main() -> unit {{\n{lets}    let f = || {sum};\n    let _ = f();\n    ()\n}}\n")));
+        fam.push(("nested-closure-captures-unresolved", format!("package Main\n\nfn main() -> unit {{\n{lets}    let f = || {{\n        let g = || {sum};\n        g()\n    }};\n    let _ = f();\n    ()\n}}\n")));
+        fam.push(("lets-unresolved", format!("package Main\n\nfn main() -> unit {{\n{lets}    ()\n}}\n")));
+        let cap_use = ns.iter().map(|n| format!("{n}")).collect::<Vec<_>>().join(", ");
+        fam.push(("closure-captures-unresolved-tuple", format!("package Main\n\nfn main() -> unit {{\n{lets}    let f = || ({cap_use});\n    let _ = f;\n    ()\n}}\n")));
+        // struct patterns
+        let unknown_pat = ns.iter().map(|n| format!("{n}: _")).collect::<Vec<_>>().join(", ");
+        fam.push(("struct-pattern-unknown-fields", format!("package Main\n\nstruct P {{\n    x: int32,\n}}\n\nfn f(p: P) -> int32 {{\n    match p {{\n        P {{ x: a, {unknown_pat} }} => a,\n    }}\n}}\n\nfn main() -> unit {{\n    string_println(int32_to_string(f(P {{ x: 1 }})))\n}}\n")));
+        let fields: String = ns.iter().map(|n| format!("    {n}: int32,\n")).collect();
+        let all_init = ns.iter().map(|n| format!("{n}: 1")).collect::<Vec<_>>().join(", ");
+        fam.push(("struct-pattern-missing-fields", format!("package Main\n\nstruct P {{\n    x: int32,\n{fields}}}\n\nfn f(p: P) -> int32 {{\n    match p {{\n        P {{ x: a }} => a,\n    }}\n}}\n\nfn main() -> unit {{\n    string_println(int32_to_string(f(P {{ x: 1, {all_init} }})))\n}}\n")));
+        let dup_pat = ns.iter().map(|n| format!("{n}: _, {n}: _")).collect::<Vec<_>>().join(", ");
+        fam.push(("struct-pattern-duplicate-fields", format!("package Main\n\nstruct P {{\n    x: int32,\n{fields}}}\n\nfn f(p: P) -> int32 {{\n    match p {{\n        P {{ x: a, {dup_pat} }} => a,\n    }}\n}}\n\nfn main() -> unit {{\n    string_println(int32_to_string(f(P {{ x: 1, {all_init} }})))\n}}\n")));
+        // struct literals
+        fam.push(("struct-literal-unknown-fields", format!("package Main\n\nstruct P {{\n    x: int32,\n}}\n\nfn main() -> unit {{\n    let p = P {{ x: 1, {all_init} }};\n    string_println(int32_to_string(p.x))\n}}\n")));
+        fam.push(("struct-literal-missing-fields", format!("package Main\n\nstruct P {{\n    x: int32,\n{fields}}}\n\nfn main() -> unit {{\n    let p = P {{ x: 1 }};\n    string_println(int32_to_string(p.x))\n}}\n")));
+        let dup_init = ns.iter().map(|n| format!("{n}: 1, {n}: 2")).collect::<Vec<_>>().join(", ");
+        fam.push(("struct-literal-duplicate-fields", format!("package Main\n\nstruct P {{\n    x: int32,\n{fields}}}\n\nfn main() -> unit {{\n    let p = P {{ x: 1, {dup_init} }};\n    string_println(int32_to_string(p.x))\n}}\n")));
+        let accesses = ns.iter().map(|n| format!("p.{n}")).collect::<Vec<_>>().join(" + ");
+        fam.push(("unknown-field-accesses", format!("package Main\n\nstruct P {{\n    x: int32,\n}}\n\nfn main() -> unit {{\n    let p = P {{ x: 1 }};\n    string_println(int32_to_string({accesses}))\n}}\n")));
+        // traits and impls
+        let sigs: String = ns.iter().map(|n| format!("    fn {n}(Self) -> int32;\n")).collect();
+        let meths: String = ns.iter().map(|n| format!("    fn {n}(self: S) -> int32 {{\n        1\n    }}\n")).collect();
+        let bad_meths: String = ns.iter().map(|n| format!("    fn {n}(self: S, extra: bool) -> string {{\n        \"x\"\n    }}\n")).collect();
+        fam.push(("impl-missing-methods", format!("package Main\n\ntrait T {{\n{sigs}}}\n\nstruct S {{}}\n\nimpl T for S {{}}\n\nfn main() -> unit {{\n    ()\n}}\n")));
+        fam.push(("impl-extra-methods", format!("package Main\n\ntrait T {{\n    fn m(Self) -> int32;\n}}\n\nstruct S {{}}\n\nimpl T for S {{\n    fn m(self: S) -> int32 {{\n        1\n    }}\n{meths}}}\n\nfn main() -> unit {{\n    ()\n}}\n")));
+        fam.push(("impl-wrong-signatures", format!("package Main\n\ntrait T {{\n{sigs}}}\n\nstruct S {{}}\n\nimpl T for S {{\n{bad_meths}}}\n\nfn main() -> unit {{\n    ()\n}}\n")));
+        fam.push(("impl-duplicate-methods", format!("package Main\n\ntrait T {{\n{sigs}}}\n\nstruct S {{}}\n\nimpl T for S {{\n{meths}{meths}}}\n\nfn main() -> unit {{\n    ()\n}}\n")));
+        fam.push(("inherent-duplicate-methods", format!("package Main\n\nstruct S {{}}\n\nimpl S {{\n{meths}{meths}}}\n\nfn main() -> unit {{\n    ()\n}}\n")));
+        let traits: String = ns.iter().map(|n| format!("trait T{n} {{\n    fn ping(Self) -> int32;\n}}\n\n")).collect();
+        let bounds = ns.iter().map(|n| format!("T{n}")).collect::<Vec<_>>().join(" + ");
+        fam.push(("bound-ambiguous-method", format!("package Main\n\n{traits}fn f[T: {bounds}](x: T) -> int32 {{\n    x.ping()\n}}\n\nfn main() -> unit {{\n    ()\n}}\n")));
+        let unk_bounds = ns.iter().map(|n| format!("Nope{n}")).collect::<Vec<_>>().join(" + ");
+        fam.push(("unknown-traits-in-bounds", format!("package Main\n\nfn f[T: {unk_bounds}](x: T) -> int32 {{\n    1\n}}\n\nfn main() -> unit {{\n    ()\n}}\n")));
+        // names, types, variants
+        let calls = ns.iter().map(|n| format!("{n}(1)")).collect::<Vec<_>>().join(" + ");
+        fam.push(("unresolved-callees", format!("package Main\n\nfn main() -> unit {{\n    string_println(int32_to_string({calls}))\n}}\n")));
+        let vars = ns.iter().map(|n| format!("{n}")).collect::<Vec<_>>().join(" + ");
+        fam.push(("unresolved-variables", format!("package Main\n\nfn main() -> unit {{\n    string_println(int32_to_string({vars}))\n}}\n")));
+        let params = ns.iter().map(|n| format!("{n}: Ty{n}")).collect::<Vec<_>>().join(", ");
+        fam.push(("unknown-types-in-signature", format!("package Main\n\nfn f({params}) -> int32 {{\n    1\n}}\n\nfn main() -> unit {{\n    ()\n}}\n")));
+        let sfields: String = ns.iter().map(|n| format!("    {n}: Ty{n},\n")).collect();
+        fam.push(("unknown-types-in-struct", format!("package Main\n\nstruct P {{\n{sfields}}}\n\nfn main() -> unit {{\n    ()\n}}\n")));
+        let arms: String = ns.iter().map(|n| format!("        E::No{n} => 1,\n")).collect();
+        fam.push(("unknown-variants-in-match", format!("package Main\n\nenum E {{\n    A,\n    B,\n}}\n\nfn f(e: E) -> int32 {{\n    match e {{\n{arms}        _ => 0,\n    }}\n}}\n\nfn main() -> unit {{\n    ()\n}}\n")));
+        let variants: String = ns.iter().map(|n| format!("    V{n},\n")).collect();
+        fam.push(("non-exhaustive-match", format!("package Main\n\nenum E {{\n    First,\n{variants}}}\n\nfn f(e: E) -> int32 {{\n    match e {{\n        E::First => 1,\n    }}\n}}\n\nfn main() -> unit {{\n    string_println(int32_to_string(f(E::First)))\n}}\n")));
+        let pvariants: String = ns.iter().map(|n| format!("    V{n}(int32, bool),\n")).collect();
+        fam.push(("non-exhaustive-match-payload", format!("package Main\n\nenum E {{\n    First,\n{pvariants}}}\n\nfn f(e: E, g: E) -> int32 {{\n    match (e, g) {{\n        (E::First, E::First) => 1,\n    }}\n}}\n\nfn main() -> unit {{\n    string_println(int32_to_string(f(E::First, E::First)))\n}}\n")));
+        // duplicate definitions
+        let dup_fns: String = ns.iter().map(|n| format!("fn {n}() -> int32 {{\n    1\n}}\n\nfn {n}() -> int32 {{\n    2\n}}\n\n")).collect();
+        fam.push(("duplicate-functions", format!("package Main\n\n{dup_fns}fn main() -> unit {{\n    ()\n}}\n")));
+        let dup_structs: String = ns.iter().map(|n| format!("struct S{n} {{\n    a: int32,\n}}\n\nstruct S{n} {{\n    b: bool,\n}}\n\n")).collect();
+        fam.push(("duplicate-structs", format!("package Main\n\n{dup_structs}fn main() -> unit {{\n    ()\n}}\n")));
+        let dup_variants: String = ns.iter().map(|n| format!("    V{n},\n    V{n},\n")).collect();
+        fam.push(("duplicate-variants", format!("package Main\n\nenum E {{\n{dup_variants}}}\n\nfn main() -> unit {{\n    ()\n}}\n")));
+        let dup_fields: String = ns.iter().map(|n| format!("    {n}: int32,\n    {n}: bool,\n")).collect();
+        fam.push(("duplicate-struct-fields", format!("package Main\n\nstruct P {{\n{dup_fields}}}\n\nfn main() -> unit {{\n    ()\n}}\n")));
+        let dup_traits: String = ns.iter().map(|n| format!("trait T{n} {{\n    fn m(Self) -> int32;\n}}\n\ntrait T{n} {{\n    fn k(Self) -> int32;\n}}\n\n")).collect();
+        fam.push(("duplicate-traits", format!("package Main\n\n{dup_traits}fn main() -> unit {{\n    ()\n}}\n")));
+        let dup_params = ns.iter().map(|n| format!("{n}: int32, {n}: bool")).collect::<Vec<_>>().join(", ");
+        fam.push(("duplicate-parameters", format!("package Main\n\nfn f({dup_params}) -> int32 {{\n    1\n}}\n\nfn main() -> unit {{\n    ()\n}}\n")));
+        // errors spread over functions and calls
+        let bad_fns: String = ns.iter().map(|n| format!("fn {n}() -> int32 {{\n    \"{n}\"\n}}\n\n")).collect();
+        fam.push(("type-errors-in-several-functions", format!("package Main\n\n{bad_fns}fn main() -> unit {{\n    ()\n}}\n")));
+        let ok_fns: String = ns.iter().map(|n| format!("fn {n}(a: int32) -> int32 {{\n    a\n}}\n\n")).collect();
+        let bad_calls = ns.iter().map(|n| format!("{n}(1, true)")).collect::<Vec<_>>().join(" + ");
+        fam.push(("wrong-arity-calls", format!("package Main\n\n{ok_fns}fn main() -> unit {{\n    string_println(int32_to_string({bad_calls}))\n}}\n")));
+        let tyargs = ns.iter().map(|n| format!("{n}: W[int32, bool]")).collect::<Vec<_>>().join(", ");
+        fam.push(("wrong-type-arity", format!("package Main\n\nstruct W[T] {{\n    x: T,\n}}\n\nfn f({tyargs}) -> int32 {{\n    1\n}}\n\nfn main() -> unit {{\n    ()\n}}\n")));
+        for (name, src) in fam {
+            v.push(Project {
+                id: format!("cdiag-{}-{}", name, k),
+                kind: "collection-diagnostics",
+                files: vec![("main.gom".to_string(), src)],
+                tags: vec![format!("k={}", k), format!("family={}", name)],
+            });
+        }
+        // the same kind of error in several files of several packages
+        let mut files = vec![("main.gom".to_string(), format!("package Main\nimport Aa\nimport Bb\n\n{bad_fns}fn main() -> unit {{\n    ()\n}}\n"))];
+        for pk in ["Aa", "Bb"] {
+            for (fi, fname) in ["a.gom", "b.gom"].iter().enumerate() {
+                let body: String = ns.iter().map(|n| format!("fn {n}{fi}() -> int32 {{\n    nope_{n}(\"{pk}\")\n}}\n\n")).collect();
+                files.push((format!("{}/{}", pk, fname), format!("package {pk}\n\n{body}")));
+            }
+        }
+        v.push(Project { id: format!("cdiag-errors-in-several-packages-{}", k), kind: "collection-diagnostics", files, tags: vec![format!("k={}", k), "family=errors-in-several-packages".to_string()] });
+    }
+    v
+}
+
 // ------------------------------------------------------------------------------------------------
 // generated multi-package projects
 
@@ -832,6 +938,7 @@ fn all_projects(args: &util::Args) -> Vec<Project> {
     let quick = args.tier != "thorough";
     let mut rng = Rng::new(args.seed);
     let mut ps = corpus_projects(quick, &mut rng);
+    ps.extend(collection_diag_projects());
     let ngen = args.n.unwrap_or(if quick { 40 } else { 240 });
     for i in 0..ngen {
         ps.push(gen_project(i, args.seed));
@@ -845,18 +952,29 @@ fn run_child(args: &util::Args) {
     if let Some(p) = args.rest.iter().position(|x| x == "--gen") {
         a2.n = args.rest.get(p + 1).and_then(|s| s.parse().ok());
     }
-    let projects = all_projects(&a2);
+    let mut projects = all_projects(&a2);
+    // `only <kind>`: a cheap child that recompiles one family (many such children = many hash seeds)
+    if let Some(p) = args.rest.iter().position(|x| x == "only") {
+        if let Some(kind) = args.rest.get(p + 1) {
+            projects.retain(|q| q.kind == kind.as_str());
+        }
+    }
     let base = util::scratch_dir(&format!("c13-child{}", child));
     let mut out = String::new();
+    let mut listings = String::new();
     for p in &projects {
         let root = base.join(&p.id);
         materialize(&root, p, child.wrapping_mul(7919) + 1);
         let obs = observe_fresh(&root);
         for (ch, text) in &obs {
             writeln!(out, "{}\t{}\t{}\t{}", p.id, ch, digest(text), text.len()).unwrap();
+            if p.kind == "collection-diagnostics" && *ch == "diagnostics" {
+                writeln!(listings, "{}\t{}", p.id, esc_line(text)).unwrap();
+            }
         }
     }
     std::fs::write(args.out.join(format!("c13.digest.child{}.tsv", child)), out).unwrap();
+    std::fs::write(args.out.join(format!("c13.cdiag.child{}.tsv", child)), listings).unwrap();
     let _ = std::fs::remove_dir_all(&base);
 }
 
@@ -889,6 +1007,25 @@ pub fn main(args: &util::Args) {
     }
     if args.rest.first().map(|s| s.as_str()) == Some("show") {
         return run_show(args);
+    }
+    if args.rest.first().map(|s| s.as_str()) == Some("cdiag") {
+        // print what the compiler says about every program of the collection-diagnostics family with k = --n
+        let base = util::scratch_dir("c13-cdiag");
+        for p in collection_diag_projects() {
+            if !p.tags.contains(&format!("k={}", args.n.unwrap_or(2))) {
+                continue;
+            }
+            let root = base.join(&p.id);
+            materialize(&root, &p, 0);
+            println!("=== {}", p.id);
+            for (ch, text) in observe_fresh(&root) {
+                if ch == "outcome" || ch == "diagnostics" {
+                    println!("[{}] {}", ch, text.trim_end());
+                }
+            }
+        }
+        let _ = std::fs::remove_dir_all(&base);
+        return;
     }
     if args.rest.first().map(|s| s.as_str()) == Some("dir") {
         // compile <dir>/main.gom where it is and print outcome + diagnostics
@@ -975,9 +1112,11 @@ pub fn main(args: &util::Args) {
     let widen = args.rest.iter().any(|x| x == "widen");
     let mut det = String::new();
     let mut dig = String::new();
+    let mut cdiag_out = String::new();
     for p in &projects {
         let multi = p.imports_of_main() >= 2;
-        let k = if quick { if multi { 40 } else if p.kind == "generated" { 12 } else { 6 } } else if multi { 120 } else { 24 };
+        let cdiag = p.kind == "collection-diagnostics";
+        let k = if quick { if multi || cdiag { 40 } else if p.kind == "generated" { 12 } else { 6 } } else if multi || cdiag { 120 } else { 24 };
         let k = if widen { k * 3 } else { k };
         let roots: Vec<PathBuf> = (0..copies).map(|c| base.join(format!("{}-c{}", p.id, c))).collect();
         for (c, r) in roots.iter().enumerate() {
@@ -988,6 +1127,13 @@ pub fn main(args: &util::Args) {
         for (ch, t) in &first {
             distinct.entry(ch).or_default().insert(digest(t));
             writeln!(dig, "{}\t{}\t{}\t{}", p.id, ch, digest(t), t.len()).unwrap();
+            if p.kind == "collection-diagnostics" && *ch == "diagnostics" {
+                let mut srcs = String::new();
+                for (rel, c) in &p.files {
+                    write!(srcs, "=== {}\n{}\n", rel, c).unwrap();
+                }
+                writeln!(cdiag_out, "{}\t{}\t{}", p.id, esc_line(t), esc_line(&srcs)).unwrap();
+            }
         }
         // first differing observation per channel
         let mut mism: Vec<(String, String, String, String)> = Vec::new();
@@ -1036,5 +1182,6 @@ pub fn main(args: &util::Args) {
     }
     std::fs::write(args.out.join("c13.det.tsv"), det).unwrap();
     std::fs::write(args.out.join("c13.digest.master.tsv"), dig).unwrap();
+    std::fs::write(args.out.join("c13.cdiag.master.tsv"), cdiag_out).unwrap();
     let _ = std::fs::remove_dir_all(&base);
 }
